@@ -476,6 +476,66 @@ def functional(ctx, model_ok):
     return dis, fails
 
 
+# ------------------------------------------------------------------ traces of three real nodes (h_fwd)
+def trace_check(ctx):
+    """Runs the seeded scenarios of h_fwd in parallel and evaluates the judges of tools/props/c02/fwdjudge.py
+    on every trace. Returns (violating, coverage) where violating = [(index, params, violations, excerpt)]."""
+    import collections
+    import subprocess
+    from props.c02 import fwdjudge as J
+    shards = core.NPROC
+    per_round = 250 if ctx.tier == "quick" else 1000
+    rounds = 1 if ctx.tier == "quick" else 12
+    binp = ctx.bin_path("h_fwd")
+    agg = collections.Counter()
+    violating = []
+    total = 0
+    import time as _t
+    t0 = _t.time()
+    for rnd in range(rounds):
+        procs = []
+        for sh in range(shards):
+            first = (rnd * shards + sh) * per_round
+            out = os.path.join(ctx.tmp, "fwd_%d_%d.trace" % (rnd, sh))
+            pr = subprocess.Popen([binp, "run", str(ctx.seed), str(first), str(per_round), out], cwd=ctx.tmp,
+                                  stdout=subprocess.DEVNULL, stderr=subprocess.DEVNULL)
+            procs.append((pr, out, first))
+        for pr, out, first in procs:
+            try:
+                rc = pr.wait(timeout=1500)
+            except subprocess.TimeoutExpired:
+                pr.kill()
+                rc = 124
+            if rc != 0 or not os.path.exists(out):
+                violating.append((first, {}, [{"judge": "harness", "why": "h_fwd exited with %s for scenarios %d..%d" % (rc, first, first + per_round - 1), "step": 0}], []))
+                continue
+            sc = J.parse(out)
+            for idx in range(first, first + per_round):
+                recs = sc.get(idx)
+                if not recs:
+                    violating.append((idx, {}, [{"judge": "harness", "why": "no trace for scenario %d" % idx, "step": 0}], []))
+                    continue
+                V, F = J.judge(recs)
+                total += 1
+                for k, v in F.items():
+                    if isinstance(v, int):
+                        agg[k] += v
+                    else:
+                        agg["%s=%s" % (k, v)] += 1
+                if V:
+                    ex = [" ".join([kind] + ["%s=%s" % kv for kv in d.items() if kv[0] != "raw"]) + " @%d" % step
+                          for (_, step, kind, d) in recs
+                          if kind not in ("PERSISTFULL", "MGRPERSIST") and not (kind == "BLOCK" and not d.get("txs"))]
+                    params = dict((k, v) for k, v in recs[0][3].items() if k != "raw") if recs[0][2] == "PARAMS" else {}
+                    violating.append((idx, params, V, ex[-160:]))
+            if not any(v[0] >= first and v[0] < first + per_round for v in violating):
+                os.remove(out)
+    ctx.timed("fwd_traces_s", _t.time() - t0)
+    cov = dict(agg)
+    cov["scenarios"] = total
+    return violating, cov
+
+
 # ------------------------------------------------------------------ run
 def run(ctx):
     ok_build, out = ctx.build_harness(BINS)
@@ -503,10 +563,18 @@ def run(ctx):
     ctx.assumptions += ["hooks call the same functions the library calls (thin wrappers, add-only)"]
     dis, fails = functional(ctx, model_ok)
     n = sum(v for k, v in ctx.coverage.get("functional_cases", {}).items() if k != "config_chunks")
-    ctx.coverage["evaluations"] = n
-    ctx.coverage["distinct_nontrivial"] = n
+    tviol, tcov = ([], {})
+    if HAVE_FWD:
+        tviol, tcov = trace_check(ctx)
+        ctx.coverage["fwd_trace_coverage"] = tcov
+        ctx.trusted_base.append("harness h_fwd (scheduler, scripted persister with durable-snapshot model, block builder) and the judges of tools/props/c02/fwdjudge.py")
+        ctx.assumptions += ["a restart finds, per monitor, a version at least as new as the newest one reported complete, and the most recently written manager",
+                            "on restart monitors and manager are brought to the chain tip before use (as lightning-block-sync does)"]
+    ctx.coverage["evaluations"] = n + tcov.get("scenarios", 0)
+    ctx.coverage["distinct_nontrivial"] = n + tcov.get("forwarded", 0)
     ctx.coverage["rule"] = ("admission: distinct inputs by construction (sets) for amt_to_forward_msat / check_blinded_forward; "
-                            "every config-state-machine op is one evaluation compared after the op; non-trivial = reaches the function under test")
+                            "every config-state-machine op is one evaluation compared after the op; non-trivial = reaches the function under test. "
+                            "traces: one seeded scenario (parameters + schedule) each, all distinct by construction; non-trivial = B actually offered the HTLC downstream")
     ctx.coverage["translated_items"] = getattr(ctx, "gen_meta", [])
     ctx.coverage["hand_functions"] = ["FundedChannel::htlc_satisfies_config (fallback glue)", "ChannelContext::update_config (state update)",
                                       "ChannelContext::maybe_expire_prev_config (state update)", "update_partial_channel_config (reject applies nothing)"]
@@ -523,7 +591,16 @@ def run(ctx):
                       {"broken": broken or "implementation-side judge", "failing_input": f,
                        "replay_cmd": "printf '%s\\n' | %s | grep '^R '" % ("\\n".join(f.get("lines", [f.get("line", "")])), ctx.bin_path("h_fwdadm"))},
                       True, key="adm:" + f["function"] + ":" + f["why"][:40])
-    if broken and not fails:
+    for (idx, params, V, ex) in tviol[:3]:
+        v = V[0]
+        ctx.violation("C02 fails on real nodes: %s: %s" % (v["judge"], v["why"][:300]),
+                      {"broken": broken or "implementation-side trace judge", "judge": v["judge"], "scenario_index": idx, "scenario_params": params,
+                       "all_violations": V[:5], "trace_tail": ex,
+                       "replay_cmd": "%s one %d %d /tmp/c02.trace >/dev/null 2>&1; grep -v PERSISTFULL /tmp/c02.trace" % (ctx.bin_path("h_fwd"), ctx.seed, idx)},
+                      True, key="fwd:" + v["judge"])
+    if tviol:
+        ctx.coverage["fwd_violating_scenarios"] = len(tviol)
+    if broken and not fails and not tviol:
         what = "rs2v refused the changed source" if gen_errs else ("proof" if not proved else "correspondence")
         ctx.violation("C02 admission no longer shown: %s broken" % what,
                       {"broken": broken, "search": "implementation-side judges over %d boundary-biased and random evaluations found no failing input" % n}, False)
